@@ -622,9 +622,16 @@ def run_instance(inst):
                     if not ms and not ctx.known_hits:
                         m = model if model is not None else eng.model_for_pc(pc)
                         ms = [m] if m is not None else []
-                    for m in ms:
+                    if len(ms) == 1:
+                        ms = ms * 3         # one model of the encoded prefix: the unconstrained inputs still vary between the runs
+                    for j, m in enumerate(ms):
                         res["completions"] += 1
-                        nat = run_native(fn, params, model_inputs(ctx.decl, m), active, lenient=True)
+                        rt.CONC_SALT[0] = j
+                        try:
+                            inp = model_inputs(ctx.decl, m)
+                        finally:
+                            rt.CONC_SALT[0] = 0
+                        nat = run_native(fn, params, inp, active, lenient=True)
                         bad = [l for l, ok in nat["checks"] if not ok]
                         if nat["outcome"].startswith("exc:"):
                             bad.append("uncaught:" + nat["outcome"][4:])
